@@ -2172,6 +2172,8 @@ def build_dataset(spec):
         return witness_dataset(spec["name"])
     if spec["kind"] == "split":
         return SPLIT.build_dataset(spec)
+    if spec["kind"] == "layout":
+        return GN.layout_dataset(spec["seed"], **spec.get("args", {}))
     ds, truth = GN.novel_dataset(spec["seed"], **spec.get("args", {}))
     return ds
 
@@ -2305,6 +2307,7 @@ def run_pipeline_case(spec, cfg, keep=None):
             extra += ["--report_canonical", cfg["report_canonical"]]
         if cfg.get("novel_unspliced"):
             extra += ["--report_novel_unspliced", "true"]
+        extra += list(cfg.get("extra") or [])          # audit-2: options outside the model-construction group
         rc, log = P.run_isoquant(os.path.join(d, "out"), P.std_args(inputs, threads=1, genedb=bool(cfg.get("genedb")),
                                                                       data_type=cfg.get("data_type", "nanopore"), extra=extra),
                                   timeout=150)
@@ -2320,6 +2323,9 @@ PIPE_STRATEGIES = [("nanopore", None), ("nanopore", "sensitive_ont"), ("pacbio_c
                    ("nanopore", "default_pacbio"), ("pacbio_ccs", "default_ont")]
 
 
+REPORT_LEVELS = [None, "auto", "only_canonical", "all", "only_stranded"]
+
+
 def pipeline_oracle(ctx, nrandom):
     stats_total = defaultdict(int)
     crashes = {"n": 0}
@@ -2330,8 +2336,15 @@ def pipeline_oracle(ctx, nrandom):
         ctx.count("pipeline_run:%s:%s" % (cfg.get("strategy") or cfg.get("data_type"), "genedb" if cfg.get("genedb") else "nodb"))
         for kind, cls, detail in fails:
             if kind == "pipeline_crash":
+                # audit-2: docs/C04.md reading rule 4 ("a crashed run is not a property failure") is withdrawn - a run that
+                # aborts on legal input reports no model at all; it is a failure kind of its own, with a replay.  Only a
+                # TIME-OUT of the harness (rc 124, machine load) stays a note (infrastructure, DESIGN 3.3 item 4).
                 crashes["n"] += 1
-                ctx.notes.append("pipeline run failed (not a property failure): %s" % detail[-300:])
+                if detail.startswith("timeout:"):
+                    ctx.notes.append("pipeline run timed out (infrastructure, not judged): %s" % detail[-300:])
+                    continue
+                ctx.fail(kind, {"level": "pipeline", "dataset": spec, "config": cfg, "class": ""},
+                         "isoquant.py aborted on a legal input: %s" % detail[-500:])
                 continue
             if kind == SPLIT.FINDING_1B_KIND and cls == SPLIT.FINDING_1B_CLASS and not SPLIT.finding_listed():
                 # proposed known finding (the builder may not edit known_findings.json): counted until it is listed
@@ -2356,17 +2369,35 @@ def pipeline_oracle(ctx, nrandom):
             break
         dt, strat = PIPE_STRATEGIES[(ctx.seed + k) % len(PIPE_STRATEGIES)]
         cfg = {"data_type": dt, "strategy": strat, "genedb": ctx.rng.random() < 0.6}
-        r = ctx.rng.random()
-        if r < 0.15:
-            cfg["report_canonical"] = "auto"
-        elif r < 0.25:
-            cfg["report_canonical"] = "only_canonical"
+        # audit-2: every `--report_canonical` level in turn (was: auto 15 %, only_canonical 10 %, `all` in one witness only);
+        # the rotation is co-prime with the strategy rotation (10 strategies x 4 levels + default)
+        lvl = REPORT_LEVELS[(ctx.seed // 7 + k) % len(REPORT_LEVELS)]
+        if lvl:
+            cfg["report_canonical"] = lvl
+        ctx.rng.random()
         if ctx.rng.random() < 0.3:
             cfg["novel_unspliced"] = True
         spec = {"kind": "random", "seed": ctx.rng.randrange(10 ** 9),
                 "args": {"n_chroms": 2, "genes_per_chrom": ctx.rng.choice([3, 4, 5]), "annotation": True,
                          "dup_polya": ctx.rng.random() < 0.3}}
         fails, stats = run_pipeline_case(spec, cfg)
+        record(spec, cfg, fails, stats)
+    # audit-2: gene layouts (antisense pair with a novel isoform using an intron annotated only on the other strand, reference
+    # twins, nested gene, locus read on both BAM strands, secondary alignments as support, locus ending at the last base,
+    # non-canonical locus) x options outside the model-construction group; +- annotation, every report level in turn
+    nlay = 4 if ctx.tier == "quick" else 44
+    for k in range(nlay):
+        if crashes["n"] >= 2:
+            break
+        name, extra = GN.LAYOUT_OPTION_SETS[(ctx.seed + k) % len(GN.LAYOUT_OPTION_SETS)]
+        dt, strat = PIPE_STRATEGIES[(ctx.seed // 3 + 3 * k) % len(PIPE_STRATEGIES)]
+        cfg = {"data_type": dt, "strategy": strat, "genedb": k % 3 != 1, "extra": extra}
+        lvl = REPORT_LEVELS[(ctx.seed // 5 + k) % len(REPORT_LEVELS)]
+        if lvl:
+            cfg["report_canonical"] = lvl
+        spec = {"kind": "layout", "seed": ctx.rng.randrange(10 ** 9)}
+        fails, stats = run_pipeline_case(spec, cfg)
+        ctx.count("pipeline_layout_options:" + name)
         record(spec, cfg, fails, stats)
     # growth c04split: loci whose read cluster is cut into sub-regions (alignments bridging the cut reach two constructors)
     for spec, cfg in SPLIT.pipeline_cases(ctx):
